@@ -12,6 +12,12 @@ Understood statements (anything else aborts, so that the dependent Coq obligatio
              self.logger.<anything>(...)                     (ignored)
              return True | False | None ;  falling off the end = return None
 A <send> raises NetworkError when the face is not running; sending twice is not representable (abort).
+That reading of <send> is itself checked against the source of the two senders (check_sender): after the
+docstring each must be
+             if not self.face.running: raise types.NetworkError(...)       (first statement, no else)
+             <assignments / expression statements, no control flow>, exactly one self.face.send(...)
+             no `return <value>` (a sender that reported instead of raising would be ignored by reply)
+anything else aborts.
 """
 import ast
 import inspect
@@ -110,6 +116,39 @@ def tr(stmts, sent):
     abort('unsupported statement in reply: ' + ast.dump(s)[:200])
 
 
+def check_sender(name):
+    fn = ast.parse(textwrap.dedent(inspect.getsource(getattr(appv2.NDNApp, name)))).body[0]
+    body = fn.body
+    if body and isinstance(body[0], ast.Expr) and isinstance(body[0].value, ast.Constant) and isinstance(body[0].value.value, str):
+        body = body[1:]
+    g = body[0] if body else None
+    t = g.test if isinstance(g, ast.If) else None
+    if not (t is not None and isinstance(t, ast.UnaryOp) and isinstance(t.op, ast.Not)
+            and isinstance(t.operand, ast.Attribute) and t.operand.attr == 'running'
+            and is_attr(t.operand.value, 'self', 'face') and not g.orelse and len(g.body) == 1):
+        abort(f'{name} does not start with `if not self.face.running:`')
+    r = g.body[0]
+    e = r.exc if isinstance(r, ast.Raise) else None
+    f = e.func if isinstance(e, ast.Call) else e
+    if not (f is not None and ((isinstance(f, ast.Attribute) and f.attr == 'NetworkError')
+                               or (isinstance(f, ast.Name) and f.id == 'NetworkError'))):
+        abort(f'{name} does not raise NetworkError when the face is down')
+    sends = 0
+    for st in body[1:]:
+        if isinstance(st, ast.Return):
+            if st.value is not None and not (isinstance(st.value, ast.Constant) and st.value.value is None):
+                abort(f'{name} returns a value (reply ignores it)')
+            abort(f'{name}: unsupported early return')
+        if not isinstance(st, (ast.Assign, ast.AnnAssign, ast.Expr)):
+            abort(f'{name}: unsupported statement ' + ast.dump(st)[:120])
+        for n in ast.walk(st):
+            if (isinstance(n, ast.Call) and isinstance(n.func, ast.Attribute) and n.func.attr == 'send'
+                    and is_attr(n.func.value, 'self', 'face')):
+                sends += 1
+    if sends != 1:
+        abort(f'{name} calls face.send {sends} times')
+
+
 def deadline_def(fn):
     for s in ast.walk(fn):
         if isinstance(s, ast.If) and isinstance(s.test, ast.Compare) and is_attr(s.test.left, 'param', 'lifetime'):
@@ -150,6 +189,8 @@ def main():
     for n in ast.walk(reply[0]):
         if isinstance(n, ast.Assign) and n is not s0:
             abort('reply assigns a variable')
+    for name in sorted(SENDS):
+        check_sender(name)
     out = ['(* GENERATED by tools/gen_reply_closure.py from ndn.appv2.NDNApp._on_interest -- do not edit *)',
            'From NDN Require Import Base.Prelude Model.Dispatch.',
            'From NDN Require Generated.ConstsApp.', 'Module ConstsApp := Generated.ConstsApp.',
